@@ -222,9 +222,7 @@ def Twcc.decP (b : Bytes) : Twcc × Status :=
         | _, _, _, _, _, _ => ({ header := h }, .panic)
     | o => ({}, o.status)
 
-def Twcc.dec (b : Bytes) : Out Twcc :=
-  let (t, st) := Twcc.decP b
-  st.toOut t
+def Twcc.dec (b : Bytes) : Out Twcc := (Twcc.decP b).2.toOut (Twcc.decP b).1
 
 def Twcc.dest (t : Twcc) : List Nat := [t.media]
 
